@@ -172,13 +172,16 @@ def regen_errtable():
 
 
 def built_files():
+    """files of the development whose .vo is up to date after `make -k`: what
+    `make -n` would still rebuild failed to compile or depends on something that did
+    (a stale .vo left behind by an earlier build does not count)"""
+    import re
+    r = common.run(["make", "-n", "-k"], cwd=COQ, timeout=120)
+    stale = set(re.findall(r'theories/([A-Za-z0-9_]+)\.v', r.stdout + r.stderr))
     out = set()
     for f in os.listdir(os.path.join(COQ, "theories")):
-        if f.endswith(".vo"):
-            v = os.path.join(COQ, "theories", f[:-1])
-            vo = os.path.join(COQ, "theories", f)
-            if os.path.exists(v) and os.path.getmtime(vo) >= os.path.getmtime(v):
-                out.add(f[:-3])
+        if f.endswith(".vo") and f[:-3] not in stale:
+            out.add(f[:-3])
     return out
 
 
@@ -314,6 +317,11 @@ def make_cases(spec, prop, tier, seed, corpus):
     cases = list(corpus)
     for prof, frac in spec["profiles"]:
         cases += gen.generate(prof, seed, max(1, int(n * frac)))
+    if prop == "C05":
+        # bounded-exhaustive sub-spaces (every history of the stated shape)
+        cases += gen.exhaustive_cycles(2, True) + gen.exhaustive_cycles(2, True, late_scope=True)
+        if tier != "quick":
+            cases += gen.exhaustive_cycles(3, False)
     if spec["twin"] == "permute":
         # the claim is about accepted registrations and successful Invokes: user functions all succeed
         for c in cases:
@@ -341,6 +349,9 @@ def distribution(cases, traces):
             ops[o["op"]] += 1
             v = ot["verdict"]
             verd[v["v"] + (":" + v["root"]["k"] if v.get("root") else "")] += 1
+    exh = sum(1 for c in cases if c.get("profile") == "exhaustive-cycles")
+    if exh:
+        feats["bounded_exhaustive_histories"] = exh
     return dict(op_mix=dict(ops), verdicts=dict(verd), history_length_buckets={str(k): v for k, v in sorted(sizes.items())},
                 features=dict(feats))
 
